@@ -23,7 +23,7 @@ DECIDING = ["shapes_finite", "P_unitary", "H_hessenberg", "similarity", "norm_pr
 MUST_REACH = ["hessenbergize:n<=2", "householder:alpha_zero", "class:already_hessenberg"]
 
 C = 1e3
-CLASSES = ["gauss", "hessenberg", "upper_tri", "lower_tri", "hermitian", "zero_subcolumns", "zero_matrix", "identity", "int", "sparse",
+CLASSES = ["cancelling_tail", "equal_moduli_tail", "gauss", "hessenberg", "upper_tri", "lower_tri", "hermitian", "zero_subcolumns", "zero_matrix", "identity", "int", "sparse",
            "pure_imag", "single_axis", "rank1", "nilpotent", "scaled_small", "scaled_big", "layout", "tridiag", "unitary", "companion"]
 
 _REACH = None
@@ -62,6 +62,24 @@ def cases(tier, seed):
 def make(rng, cls, n):
     if cls == "gauss":
         return refq.randq(rng, n, n)
+    if cls in ("cancelling_tail", "equal_moduli_tail"):
+        # exact-arithmetic coincidences in the part of a column that has to be eliminated: entries that are non-zero but sum to
+        # exactly zero (e.g. +1, -1 / i, j, -i-j), or that all have the same modulus
+        c = np.round(rng.standard_normal((n, n, 4)) * 2.0)
+        for j in range(max(0, n - 2)):
+            if rng.random() < 0.7 or j == 0:
+                t = n - (j + 2)
+                if t >= 2:
+                    v = np.round(rng.standard_normal((t, 4)) * 2.0)
+                    if cls == "cancelling_tail":
+                        v[-1] = -v[:-1].sum(axis=0)
+                        if not np.any(v):
+                            v[0, 1], v[-1, 1] = 1.0, -1.0
+                    else:
+                        for q in range(t):
+                            ax = int(rng.integers(0, 4)); v[q] = 0.0; v[q, ax] = float(rng.choice([-2.0, 2.0]))
+                    c[j + 2:, j] = v
+        return refq.qa(c)
     if cls == "hessenberg":
         c = rng.standard_normal((n, n, 4)) * np.triu(np.ones((n, n)), -1)[..., None]
         return refq.qa(c)
